@@ -48,6 +48,7 @@ type Vm struct {
 	pg            *render.Page      // Render outputs with menues to size constraints
 	menuSeparator string            // Passed to Menu.WithSeparator if not empty
 	last          string            // Last failed LOAD/RELOAD attempt
+	matched       bool              // An INCMP has matched the input during the current Run
 }
 
 // NewVm creates a new Vm.
@@ -121,6 +122,7 @@ func (vm *Vm) Run(ctx context.Context, b []byte) ([]byte, error) {
 	logg.Tracef("new vm run")
 	running := true
 	vm.last = ""
+	vm.matched = false
 	for running {
 		r := vm.st.MatchFlag(state.FLAG_TERMINATE, true)
 		if r {
@@ -387,7 +389,7 @@ func (vm *Vm) runInCmp(ctx context.Context, b []byte) ([]byte, error) {
 		panic(err)
 	}
 	if have {
-		if reading {
+		if reading || vm.matched {
 			logg.DebugCtxf(ctx, "ignoring input - already have match", "input", sym)
 			return b, nil
 		}
@@ -410,6 +412,7 @@ func (vm *Vm) runInCmp(ctx context.Context, b []byte) ([]byte, error) {
 	}
 	vm.st.SetFlag(state.FLAG_INMATCH)
 	vm.st.ResetFlag(state.FLAG_READIN)
+	vm.matched = true
 
 	newSym, _, err := applyTarget([]byte(sym), vm.st, vm.ca, ctx)
 
